@@ -165,6 +165,7 @@ impl Model {
         let mut out = String::new();
         self.stdout.read_line(&mut out).expect("model driver died");
         self.calls += 1;
+        beat();
         if out.is_empty() {
             panic!("model driver closed its output (request {})", &line[..line.len().min(200)]);
         }
@@ -270,6 +271,7 @@ impl Report {
         }
     }
     pub fn count(&mut self, key: &str) {
+        beat();
         *self.dist.entry(key.to_string()).or_insert(0) += 1;
     }
     pub fn count_n(&mut self, key: &str, n: u64) {
@@ -280,6 +282,7 @@ impl Report {
     }
     /// one evaluated case; `nontrivial` per the property's rule; `key` identifies the case
     pub fn eval(&mut self, key: u64, nontrivial: bool) {
+        beat();
         self.evaluations += 1;
         if nontrivial {
             self.nontrivial.insert(key);
@@ -352,4 +355,37 @@ impl Ctx {
         let scale: f64 = std::env::var("VERIF_BUDGET_SCALE").ok().and_then(|s| s.parse().ok()).unwrap_or(1.0);
         ((if self.thorough { t } else { q }) as f64 * scale).max(1.0) as u64
     }
+}
+
+// ---------------------------------------------------------------------------------------------
+// Watchdog: a case that makes the implementation loop forever (or the harness stall) must end in a
+// report, not in a run that never ends.  Every evaluation / counter update is a heartbeat.
+pub static HEARTBEAT_MS: std::sync::atomic::AtomicU64 = std::sync::atomic::AtomicU64::new(0);
+pub static EVALS_SEEN: std::sync::atomic::AtomicU64 = std::sync::atomic::AtomicU64::new(0);
+fn now_ms() -> u64 {
+    std::time::SystemTime::now().duration_since(std::time::UNIX_EPOCH).map(|d| d.as_millis() as u64).unwrap_or(0)
+}
+pub fn beat() {
+    HEARTBEAT_MS.store(now_ms(), std::sync::atomic::Ordering::Relaxed);
+    EVALS_SEEN.fetch_add(1, std::sync::atomic::Ordering::Relaxed);
+}
+/// spawn the watchdog thread: when nothing was evaluated for `limit_s` seconds, write a report holding
+/// one violation ("no progress") to `out` and leave the process
+pub fn spawn_watchdog(property: String, out: Option<String>, limit_s: u64, seed: u64, tier: String) {
+    beat();
+    std::thread::spawn(move || loop {
+        std::thread::sleep(std::time::Duration::from_secs(2));
+        let idle = now_ms().saturating_sub(HEARTBEAT_MS.load(std::sync::atomic::Ordering::Relaxed)) / 1000;
+        if idle > limit_s {
+            let n = EVALS_SEEN.load(std::sync::atomic::Ordering::Relaxed);
+            let mut rep = Report::new(&property);
+            rep.evaluations = n;
+            rep.violation("oracle", &format!("{property}/no-progress"), serde_json::json!({"what": "no-progress"}),
+                &format!("no progress for {idle} s after {n} heartbeats (seed {seed}, tier {tier}): an operation of the implementation does not return"),
+                serde_json::json!({"stalled_after_heartbeats": n, "seed": seed, "tier": tier}));
+            let s = serde_json::to_string_pretty(&rep.to_json()).unwrap_or_default();
+            match &out { Some(p) => { let _ = std::fs::write(p, s); } None => println!("{s}") }
+            std::process::exit(0);
+        }
+    });
 }
